@@ -19,8 +19,8 @@ ENCODED = ["twisted.internet.base:ReactorBase.callLater",
            "twisted.internet.base:DelayedCall.delay", "twisted.internet.base:DelayedCall.activate_delay",
            "twisted.internet.base:DelayedCall.getTime", "twisted.internet.base:DelayedCall.active",
            "twisted.internet.base:DelayedCall.__le__", "twisted.internet.base:DelayedCall.__lt__"]
-BOUNDS = {"quick": {"n": 3, "ni": 2, "k_op": 4, "k_run": 3, "k_in": 2, "m": 1, "nd": 1},
-          "thorough": {"n": 4, "ni": 3, "k_op": 5, "k_run": 5, "k_in": 4, "m": 2, "nd": 2}}
+BOUNDS = {"quick": {"n": 3, "ni": 2, "tot": 3, "tot_in": 3, "m": 1, "nd": 1},
+          "thorough": {"n": 4, "ni": 3, "tot": 5, "tot_in": 4, "m": 2, "nd": 1}}
 B = {}
 PADS = 51           # concrete cancelled far-future heap entries used to reach the compaction branch
 FAR = 1.0e9         # their time; all symbolic times and the clock stay below it in step_compact
@@ -303,10 +303,10 @@ def history(t0: float, n: int, d0: float, d1: float, d2: float, d3: float, tm: b
     return bool(W.ok)
 
 
-def _state_pre(kmax, k, m, cm, drift, ts, us, dx, dl, dy, dm):
+def _state_pre(tot, k, m, cm, drift, ts, us, dx, dl, dy, dm):
     # bounds and the representation invariant of the pre-state; int parts fork in Python (they are
     # fixed by the shards), real parts are one conjunction
-    if not (0 <= k <= kmax and 0 <= m <= B['m'] and 0 <= cm < 2 ** (k + m) and drift >= 0):
+    if not (0 <= k and 0 <= m <= B['m'] and k + m <= tot and 0 <= cm < 2 ** (k + m) and drift >= 0):
         return False
     if not (-1 <= dx < k + m and -1 <= dy < dx or dx == dy == -1):
         return False
@@ -362,13 +362,13 @@ def step_op(now: float, k: int, m: int, cm: int, drift: int,
             t0: float, t1: float, t2: float, t3: float, t4: float, u0: float, u1: float,
             dx: int, dl: float, dy: int, dm: float, act: int, tgt: int, r: float) -> bool:
     """
-    pre: _state_pre(B['k_op'], k, m, cm, drift, (t0, t1, t2, t3, t4), (u0, u1), dx, dl, dy, dm)
+    pre: _state_pre(B['tot'], k, m, cm, drift, (t0, t1, t2, t3, t4), (u0, u1), dx, dl, dy, dm)
     pre: -BIG <= now <= BIG and -BIG <= r <= BIG
     pre: 0 <= act <= 4 and (r >= 0 or act == 3)
     pre: 0 <= tgt < k + m or (tgt == 0 and (act == 0 or act == 4))
     post: _
     """
-    k = _pick(k, 0, B['k_op'])
+    k = _pick(k, 0, B['tot'])
     m = _pick(m, 0, B['m'])
     cm = _pick(cm, 0, 2 ** (k + m) - 1)
     dx = _pick(dx, -1, k + m - 1)
@@ -391,13 +391,13 @@ def step_run(now: float, k: int, m: int, cm: int, drift: int,
              t0: float, t1: float, t2: float, t3: float, t4: float, u0: float, u1: float,
              dx: int, dl: float, dy: int, dm: float, who: int, act: int, tgt: int, r: float) -> bool:
     """
-    pre: _state_pre(B['k_run'] if act == 0 else B['k_in'], k, m, cm, drift, (t0, t1, t2, t3, t4), (u0, u1), dx, dl, dy, dm)
+    pre: _state_pre(B['tot'] if act == 0 else B['tot_in'], k, m, cm, drift, (t0, t1, t2, t3, t4), (u0, u1), dx, dl, dy, dm)
     pre: -BIG <= now <= BIG and -BIG <= r <= BIG
     pre: 0 <= act <= 5 and (r >= 0 or act == 3) and 1 <= k + m
     pre: 0 <= who < k + m and (0 <= tgt < k + m) and (act != 0 or who + tgt == 0)
     post: _
     """
-    k = _pick(k, 0, B['k_run'])
+    k = _pick(k, 0, B['tot'])
     m = _pick(m, 0, B['m'])
     cm = _pick(cm, 0, 2 ** (k + m) - 1)
     dx = _pick(dx, -1, k + m - 1)
@@ -422,13 +422,13 @@ def step_compact(now: float, k: int, m: int, cm: int, drift: int,
                  t0: float, t1: float, t2: float, t3: float, t4: float, u0: float, u1: float,
                  dx: int, dl: float, dy: int, dm: float, who: int, act: int, tgt: int, r: float) -> bool:
     """
-    pre: _state_pre(B['k_in'], k, m, cm, drift, (t0, t1, t2, t3, t4), (u0, u1), dx, dl, dy, dm)
+    pre: _state_pre(B['tot_in'], k, m, cm, drift, (t0, t1, t2, t3, t4), (u0, u1), dx, dl, dy, dm)
     pre: -BIG <= now <= BIG and 0 <= r <= BIG
     pre: (act == 0 or act == 1 or act == 5) and 1 <= k + m and drift <= 2
     pre: 0 <= who < k + m and (0 <= tgt < k + m) and (act != 0 or who + tgt == 0)
     post: _
     """
-    k = _pick(k, 0, B['k_in'])
+    k = _pick(k, 0, B['tot_in'])
     m = _pick(m, 0, B['m'])
     cm = _pick(cm, 0, 2 ** (k + m) - 1)
     dx = _pick(dx, -1, k + m - 1)
